@@ -292,6 +292,12 @@ impl PersistWal {
     /// This guarantees that either the old or new WAL exists at all times -
     /// a crash at any point cannot lose other shards' data.
     pub fn remove_shard_entries(&mut self, shard_name: &str) -> StorageResult<()> {
+        // Entries still in the writer's buffer (batched durability) are part of the
+        // log: write them out before the file is read, or the other shards' buffered
+        // entries are dropped together with the file that is replaced below.
+        if let Some(writer) = self.writer.as_mut() {
+            writer.flush()?;
+        }
         let entries = self.read_all()?;
 
         // Close writer before manipulating the file
